@@ -11,6 +11,7 @@ From Coq Require Import List ZArith NArith Bool QArith.
 From PFGen Require Import MarchTable.
 From PF Require Import March.Grid March.TableProps March.GridProofs March.SurfaceProofs.
 From PF Require Import March.VertexProofs March.Closed March.ClosedProofs March.Blocks March.BlocksProofs.
+From PF Require Import March.Canvas March.CanvasProofs March.Weld March.WeldProofs.
 Import ListNotations.
 Open Scope Z_scope.
 
@@ -116,9 +117,59 @@ Theorem block_fetch_correct : forall (A : Type) (sample : pt -> A) (store : pt -
   fetched store b l k = sample (padd (padd (pscale bs b) l) (incr k)).
 Proof. exact block_fetch_correct_thm. Qed.
 Print Assumptions block_fetch_correct.
-(* blocks_cover_partial -- NOT proved: that every cell with a below-cutoff corner is visited by exactly one block
-   whose eight neighbour blocks exist (fieldBounds padding + chunkSectionsInRange); tied by the correspondence
-   check only (shapes on/near block boundaries in every axis, negative blocks). *)
+(* The canvas as a whole (March/Canvas.v).  `fields` are the fields added, each as the integers
+   floor(Domain.Min*cpu), ceil(Domain.Max*cpu) that fieldBounds computes (its sample range is blo f .. bhi f, one
+   lattice point of padding on each side); blocks fields are the storage blocks chunkSectionsInRange allocates
+   (products of block ranges); stored p is the accumulated sample at lattice point p, below v is "v < cutoff";
+   cell_processed mirrors the three `continue`s of marchFloat1BlockPosition (next z block missing on the last layer,
+   next y block missing on the last row, any of the eight corner blocks missing).
+   Hypothesis of the property: every below-cutoff sample lies strictly inside the sample box of one of the fields
+   (implied by "strictly inside its declared domain"; with a cutoff <= 0 it also says that never-written samples,
+   which are 0, are not below the cutoff).
+
+   blocks_cover: every cell with a below-cutoff corner lies in an allocated block, is processed by that block (none of
+   the `continue`s fires), and by no other (block, local cell) pair. *)
+Theorem blocks_cover : forall (A : Type) (below : A -> bool) (stored : pt -> A) (fields : list fld),
+  (forall p, below (stored p) = true -> exists f, In f fields /\ strictly_inside (blo f) (bhi f) p) ->
+  forall c : pt, (exists k, 0 <= k < 8 /\ below (stored (padd c (incr k))) = true) ->
+    In (chunk_pt c) (blocks fields) /\ in_block (local_pt c) /\
+    c = global_cell (chunk_pt c) (local_pt c) /\
+    cell_processed (blocks fields) (chunk_pt c) (local_pt c) = true /\
+    (forall b l, in_block l -> c = global_cell b l -> b = chunk_pt c /\ l = local_pt c).
+Proof. intros A below stored fields H c Hc. exact (blocks_cover_thm below stored fields H c Hc). Qed.
+Print Assumptions blocks_cover.
+
+(* canvas_eq_grid: with the storage layout of addFloat1Range (sample p in block chunk_pt p at index (local_pt p)) the
+   triangles emitted by all blocks together are, as a multiset, exactly the surface of the sign grid of the stored
+   samples (block_fetch_correct + blocks_cover; cells that are skipped or lie in blocks without data emit nothing). *)
+Theorem canvas_eq_grid : forall (A : Type) (below : A -> bool) (store : pt -> Z -> A) (stored : pt -> A)
+  (fields : list fld),
+  (forall blk loc, present (blocks fields) blk = true -> in_block loc ->
+     store blk (index loc) = stored (global_cell blk loc)) ->
+  (forall p, below (stored p) = true -> exists f, In f fields /\ strictly_inside (blo f) (bhi f) p) ->
+  forall lo hi : pt, (forall p, below (stored p) = true -> strictly_inside lo hi p) ->
+  forall t : tri,
+    count_occ tri_dec (canvas_surface below store (blocks fields)) t =
+    count_occ tri_dec (surface (fun p => below (stored p)) lo hi) t.
+Proof. exact @canvas_eq_grid_thm. Qed.
+Print Assumptions canvas_eq_grid.
+
+(* canvas_closed = block_fetch_correct + blocks_cover + grid_closed in one statement: whatever fields were added,
+   wherever they sit relative to the storage blocks, the output of marchFloat1 (before the weld) has every directed
+   edge at most once and its reverse exactly as often. *)
+Theorem canvas_closed : forall (A : Type) (below : A -> bool) (store : pt -> Z -> A) (stored : pt -> A)
+  (fields : list fld),
+  (forall blk loc, present (blocks fields) blk = true -> in_block loc ->
+     store blk (index loc) = stored (global_cell blk loc)) ->
+  (forall p, below (stored p) = true -> exists f, In f fields /\ strictly_inside (blo f) (bhi f) p) ->
+  forall e : dedge,
+    countd e (dedges (canvas_surface below store (blocks fields))) =
+    countd (swap e) (dedges (canvas_surface below store (blocks fields))) /\
+    (countd e (dedges (canvas_surface below store (blocks fields))) <= 1)%nat.
+Proof. exact canvas_closed_all_thm. Qed.
+Print Assumptions canvas_closed.
+(* storage_layout_partial -- NOT proved: that AddField / addFloat1Range establish the storage layout assumed above
+   (accumulation `+=` into zeroed blocks at d.index(shiftedPos)); tied by the correspondence check (reference samples). *)
 
 (* The oracle used on the implementation's output is sound: iclosedb ts = true implies that every directed
    edge of the index triangle list occurs at most once and its reverse exactly as often. *)
@@ -128,15 +179,40 @@ Proof. exact iclosedb_sound_thm. Qed.
 Print Assumptions iclosedb_sound.
 
 (* The weld (any identification lab of vertices, then dropping triangles with two equal corners) keeps every
-   directed edge between two different vertices balanced with its reverse.  weld_manifold_partial -- what it does
+   directed edge between two different vertices balanced with its reverse.  What an ARBITRARY identification does
    NOT keep is "at most once": identifying the crossing points of two grid edges can make an edge with four
-   incident triangles (found on the real code at 400 cubes per unit and with samples exactly on the cutoff). *)
+   incident triangles (found on the real code before 3a3ee8c at 400 cubes per unit, with samples exactly on the
+   cutoff, and for ~1 % of ordinary unions at 10-25 cubes per unit).  The repaired weld is injective: weld_manifold. *)
 Theorem weld_keeps_balance : forall (lab : N -> N) (ts : list itri),
   (forall e, icount e (iedges ts) = icount (ie_swap e) (iedges ts)) ->
   forall e, fst e <> snd e ->
   icount e (iedges (weld_tris lab ts)) = icount (ie_swap e) (iedges (weld_tris lab ts)).
 Proof. exact weld_keeps_balance_thm. Qed.
 Print Assumptions weld_keeps_balance.
+
+(* The REPAIRED weld (3a3ee8c), over the rationals: the interpolation parameter is clamped to [1/1000, 999/1000], a
+   vertex of grid edge g sits at vpos g t (cell units), and vertices are merged by bucket = math.Round(10^4 * coordinate)
+   per coordinate.  Two vertices share a bucket iff they lie on the same grid edge ... *)
+Theorem weld_bucket_iff_edge : forall (tpar : gedge -> Q) (g g' : gedge), valid_edge g -> valid_edge g' ->
+  (bucket (vpos g (clampq (tpar g))) = bucket (vpos g' (clampq (tpar g'))) <-> g = g').
+Proof. exact bucket_iff_thm. Qed.
+Print Assumptions weld_bucket_iff_edge.
+
+(* ... hence weld_manifold: replacing every vertex of the surface of any sign grid by its bucket (welded_edges = the
+   directed edges of the welded mesh) keeps every directed edge at most once with its reverse exactly as often, and
+   no face gets two equal corners -- at every resolution, also when samples equal the cutoff. *)
+Theorem weld_manifold : forall (s : pt -> bool) (lo hi : pt),
+  (forall p, s p = true -> strictly_inside lo hi p) ->
+  forall (tpar : gedge -> Q) (a b : Z * Z * Z),
+    count_occ kedge_dec (welded_edges s lo hi tpar) (a, b) = count_occ kedge_dec (welded_edges s lo hi tpar) (b, a) /\
+    (count_occ kedge_dec (welded_edges s lo hi tpar) (a, b) <= 1)%nat /\
+    (In (a, b) (welded_edges s lo hi tpar) -> a <> b).
+Proof. exact weld_manifold_thm. Qed.
+Print Assumptions weld_manifold.
+(* float_weld_partial -- NOT proved: that the float64 computation of the position (a + (b-a)*t + offset, two
+   neighbouring cells interpolating in opposite directions) lands in the bucket of the exact rational position; the
+   copies differ by ~1e-15 cells against a bucket of 1e-4 (a crossing within 1e-15 of a bucket boundary is the only
+   way to split a vertex; the harness counts such cases: 0 so far). *)
 
 (* non-vacuity: a single below-cutoff sample at the origin inside the box (-1,-1,-1)..(1,1,1) gives the
    octahedron of 8 triangles, closed and without degenerate faces *)
